@@ -496,6 +496,29 @@ def stepLine (st : State) (w : List String) : State × String :=
           | (_, .outOfFuel) => acc ++ "out-of-fuel"
       (st, go 100001 { buf := { rest := cstr text } } "")
     | none => (st, "bad-op")
+  | ["lexx", fn, text] =>
+    -- as lex, over all bytes of the text (NUL included) and with include function `fn`
+    match unhex text, fn.toNat? with
+    | some text, some fn =>
+      let T := Generated.tokens
+      let rec goX (fuel : Nat) (s : ScanState) (acc : String) : String :=
+        match fuel with
+        | 0 => acc ++ "fuel"
+        | fuel + 1 =>
+          match yylex Generated.scanner Generated.scanActions st.world { fn := fn, dir := none } readFuel s with
+          | (s', .tok t v) =>
+            let val :=
+              if t == T.string || t == T.name then ":" ++ hex v.sval
+              else if t == T.boolean || t == T.integer || t == T.hex || t == T.integer64 || t == T.hex64 then s!":{v.ival}"
+              else if t == T.float then ":" ++ hex64 v.fval
+              else ""
+            goX fuel s' (acc ++ s!"{t}{val}@{s'.buf.lineno} ")
+          | (_, .eof) => acc ++ "eof"
+          | (s', .includeError t _ _ _) => goX fuel s' (acc ++ s!"{t}@{s'.buf.lineno} ")
+          | (_, .echo b) => acc ++ s!"echo-{b}"
+          | (_, .outOfFuel) => acc ++ "out-of-fuel"
+      (st, goX 100001 { buf := { rest := text } } "")
+    | _, _ => (st, "bad-op")
   | ["wfcase", text, fsync, kind, param] =>
     -- C12: parse a configuration, then config_write_file under the I/O faults the kind denotes
     match unhex text, fsync.toNat?, param.toNat? with
